@@ -177,6 +177,6 @@ PROPS = {
         "constants": ["MAX_VALUES_V4", "MAX_VALUES_V6", "ANNOUNCE_PICK_NUM", "TOKEN_REFRESH_INTERVAL_ns", "MAX_ITEMS_STORED", "EXPIRATION_TIME_ns"],
         "trusted": NODE_TRUST,
         "assumptions": [],
-        "level_note": "PARTIAL: every link of the path announce -> token -> announce_peer -> peer store (24 h, exact over all histories) -> get_peers reply -> searcher's stream is proved at model level for all inputs; the routing/liveness composition over networks of 2..9 mutually known nodes with latencies is decided by the [C01] oracle on networks of real MainlineDht instances (v4/v6, announce port set/implied, offsets seconds..beyond 24 h in the thorough tier), in lockstep with the node model (tie)",
+        "level_note": "PARTIAL (hypotheses, not clauses, remain). Proved: every link for all inputs/histories (token accepted >= 10 min, announce stores the contact, 24 h storage, reply lists the stored addresses, stream yields them) and, since session 4, the composition over a network of handler models (Proofs/Net*.lean, ReachG.lean): C01_server_contract (a serving node that knows exactly the other nodes answers every get_peers with its current token for the requester, the live stored contacts and exactly those nodes, along any run of queries); C01_announce_reaches_all (in a loss-free run with one-way latency D, 2D < 1.5 s, once the announcer's end-game timer has fired every node of closest8 — all others for <= 8 others — holds (info-hash, announcer's IP with the configured or source port) with insertion time in [T1, T1 + D], or the announce is still in flight); C01_search_finds, C01_expired_not_found (a later search yields a contact every queried node holds alive, and nothing that no node of the network holds — 24 h expiry by C07); C01_end_to_end (the searcher's stream yields the announcer's contact when its window ends less than 24 h after the announce). Explicit hypotheses: the network run (NetRun: every datagram delivered exactly once within D, nothing else delivered, timers not early), every node's table lists exactly the others as good for the window (Serves/Knows; a window of <= 10 min, the token validity), stores with room, one search at a time (RunOk), the search ends (C04). Not proved: concurrent searches and re-announces (stage D), the period between two searches more than 10 minutes apart (refresh, contacts going questionable: `Ready` is then a hypothesis). The proof surfaced that a search queries and announces to its own node (replies name the requester), so with exactly 9 nodes the 8 announces include the announcer itself and the farthest other node stores nothing — the end-to-end claim still holds. The [C01] oracle of the node engine decides the claim on networks of real nodes (2..9 nodes, offsets up to beyond 24 h)",
     },
 }
